@@ -388,6 +388,17 @@ impl VfFromBytes for u32 {
     #[verifier::external_body]
     fn vf_from_le_slice(s: &[u8]) -> (r: u32) { unimplemented!() }
 }
+pub uninterp spec fn le128_inv(s: Seq<u8>) -> u128;
+pub uninterp spec fn be128_inv(s: Seq<u8>) -> u128;
+impl VfFromBytes for u128 {
+    open spec fn width() -> int { 16 }
+    open spec fn be_inv(s: Seq<u8>) -> u128 { be128_inv(s) }
+    #[verifier::external_body]
+    fn vf_from_be_slice(s: &[u8]) -> (r: u128) { unimplemented!() }
+    open spec fn le_inv(s: Seq<u8>) -> u128 { le128_inv(s) }
+    #[verifier::external_body]
+    fn vf_from_le_slice(s: &[u8]) -> (r: u128) { unimplemented!() }
+}
 pub struct Storage { pub db: Db, pub x: u8 }
 impl Storage {
     // the snapshot read during this call
